@@ -1086,6 +1086,13 @@ func (w *lifeW) runCycle(i int) {
 		if NickOf(cy.regLines) != w.nick {
 			e.Violation("registration-on-reconnect", "connection %d registered with %q, want nick %q", cy.no, cy.regLines, w.nick)
 		}
+		// ... and as the user it is configured as: the new connection is not
+		// affected by the teardown of the previous one (the user name is the
+		// configured one or the one the previous server's welcome reported)
+		user := cy.regLines[len(cy.regLines)-1]
+		if user != "USER sim 12 * :Sim User" && user != "USER ident 12 * :Sim User" {
+			e.Violation("registration-on-reconnect", "connection %d registered with %q: the client is configured as user \"sim\" with real name \"Sim User\" (the first connection registered with %q)", cy.no, cy.regLines, w.cycles[0].regLines)
+		}
 		e.Check()
 	}
 	if w.reconn == 0 || i+1 >= w.ncycles {
